@@ -637,7 +637,10 @@ func (sl *SignalLayout) Decode(data []byte) []*SignalDecoding {
 		// New signal to filter
 		if entID != prevEntID {
 			if currSig != nil {
-				decodings = append(decodings, sl.decodeSignal(currSig, rawValue))
+				// a multiplexer signal has no decoding
+				if dec := sl.decodeSignal(currSig, rawValue); dec != nil {
+					decodings = append(decodings, dec)
+				}
 			}
 
 			prevEntID = entID
@@ -662,7 +665,9 @@ func (sl *SignalLayout) Decode(data []byte) []*SignalDecoding {
 	}
 
 	if currSig != nil {
-		decodings = append(decodings, sl.decodeSignal(currSig, rawValue))
+		if dec := sl.decodeSignal(currSig, rawValue); dec != nil {
+			decodings = append(decodings, dec)
+		}
 	}
 
 	return decodings
